@@ -47,7 +47,7 @@ def run_number(r):
         s2 = cssutils.parseString(sheet.cssText)
         reser = s2.cssRules[0].style.getPropertyValue("left")
         # the same literal given to a value object that held another one (with another unit, or with one at all)
-        for prior in ("3px", "7", "50%"):
+        for prior in ("3px", "7", "50%", "-0.5em", "+.25%", "-7"):
             w = css.PropertyValue(prior)[0]
             _ = (w.value, w.dimension, w.cssText)
             w.cssText = text
